@@ -245,7 +245,9 @@ pub fn c07_worlds(tier: Tier) -> Vec<WorldSpec> {
         ops.push(Op::Skip(n));
     }
     let (e, d, budget) = if q(tier) { (9, 4, 4) } else { (11, 5, 5) };
-    ops.into_iter()
+    let mut v: Vec<WorldSpec> = ops
+        .iter()
+        .cloned()
         .map(|op| {
             let mut s = spec(op, e, d);
             s.cfg.modes = vec![PMode::Listenable];
@@ -253,7 +255,18 @@ pub fn c07_worlds(tier: Tier) -> Vec<WorldSpec> {
             s.name = format!("{} listenable E={} D={}", s.name, e, d);
             s
         })
-        .collect()
+        .collect();
+    // the same oracle with a source that may also answer Pulls (inside the call or later): the
+    // operators must be the same list functions under push and under pull
+    let (e, d) = if q(tier) { (6, 4) } else { (8, 5) };
+    for op in ops {
+        let mut s = spec(op, e, d);
+        s.cfg.modes = vec![PMode::Mixed];
+        s.cfg.data_budget = budget;
+        s.name = format!("{} mixed E={} D={}", s.name, e, d);
+        v.push(s);
+    }
+    v
 }
 
 pub fn fanin_worlds(tier: Tier, mk: impl Fn(usize) -> Op) -> Vec<WorldSpec> {
